@@ -83,6 +83,12 @@ def forked(fn, *args, timeout=180):
         except BaseException:  # noqa: BLE001
             code = 3
         finally:
+            try:  # this child's private tmpfs directory, if one is still there
+                from .simfs import FS
+
+                FS.cleanup()
+            except BaseException:  # noqa: BLE001
+                pass
             os._exit(code)
     os.close(w)
     try:
